@@ -90,6 +90,7 @@ def run(ctx):
 
     sorted_rule(ctx, syn)
     row_rule(ctx, syn)
+    emptyrow_rule(ctx, syn)
     compress_rule(ctx, syn)
     expand_rule(ctx, syn)
     guard_rule(ctx, syn)
@@ -972,6 +973,42 @@ def lowlevel_rule(ctx, prog, rid="C01.LOWLEVEL"):
             if bypass is not None:
                 ctx.report(r, "%s|%s" % (bid, which), "%s calls Annotation::%s (line %s) and can return normally without the matching dataset_data_annotation_map.%s on that path: the annotation's data and the reverse index disagree (data.annotations() misses the annotation, or removal cascades miss it)" % (bid, which, b.blocks[bi]["t"].get("line"), want), b.file, b.blocks[bi]["t"].get("line"))
     ctx.floor(r, n, 3, "calls of Annotation::add_data / remove_data")
+
+
+def emptyrow_rule(ctx, syn, rid="C01.EMPTYROW"):
+    """RelationMap is a vector of rows indexed by handle: the row of item 3 exists (empty) as soon as item 7 has a
+    relation.  Callers read `get(x).is_none()` as "x has no relation" (root-store membership of resources and datasets
+    in the JSON writer, resources_no_substores()), so get() must not hand out an empty row."""
+    from formula import Evaluator, Unknown, Panic, StructVal, some, is_some
+    r = ctx.rule(rid, "RelationMap::get answers None for an item without relations, also when its (empty) row exists because an item with a higher handle has one")
+    fs = [f for f in syn.fns if f.name == "get" and f.file == "src/store.rs" and (f.self_ty or "").startswith("RelationMap<") and f.trait is None and f.body is not None]
+    if len(fs) != 1:
+        ctx.anchor_missing(r, "RelationMap::get")
+        return
+    fn = fs[0]
+    ctx.functions_analysed.add(fn.qual)
+    hooks = {"as_usize": lambda ev, recv, args, node, env: recv if isinstance(recv, int) else NotImplemented,
+             "get": lambda ev, recv, args, node, env: ((some(recv[args[0]]) if 0 <= args[0] < len(recv) else None) if isinstance(recv, list) else NotImplemented),
+             "is_empty": lambda ev, recv, args, node, env: (len(recv) == 0) if isinstance(recv, list) else NotImplemented}
+
+    def h_filter(ev, recv, args, node, env):
+        if (recv is None or is_some(recv)) and args and isinstance(args[0], tuple) and args[0][0] == "closure":
+            if recv is None:
+                return None
+            from props.c10 import closure_call
+            return recv if closure_call(ev, args[0], [recv[1]], env) else None
+        return NotImplemented
+    hooks["filter"] = h_filter
+    m = StructVal("RelationMap", {"data": [[], [5], [], [2, 9]]})
+    try:
+        for x, want in ((0, None), (1, [5]), (2, None), (3, [2, 9]), (7, None)):
+            got = Evaluator(hooks=hooks).run_body(fn.body, {"self": m, "x": x})
+            r.hit("get(%d)" % x, sample={"rows": [[], [5], [], [2, 9]], "x": x, "answer": repr(got)})
+            gv = got[1] if is_some(got) else None
+            if gv != want:
+                ctx.report(r, "empty-row" if want is None else "row", "RelationMap::get(%d) on the rows [[], [5], [], [2, 9]] answers %r, expected %r: an item without relations is told apart from one with relations by `get(x).is_none()` (a root-store resource with a lower handle than a sub-store's resource is otherwise not written by the JSON writer of the root store, and the store cannot be loaded back)" % (x, got, want), fn.file, fn.line)
+    except (Unknown, Panic) as e:
+        ctx.report(r, "unevaluated", "RelationMap::get could not be evaluated (%s)" % e, fn.file, fn.line)
 
 
 def SInt_(v):
